@@ -253,6 +253,7 @@ def C16(tier, seed):
            ("geff:scale_given", dict(op="geff", scale="given")),
            ("geff:noseg:per_axis_pos", dict(op="geff", seg=False, multi_pos=True)),
            ("csv", dict(op="csv")), ("csv:full:display", dict(op="csv", select=False, display_names=True)),
+           ("csv:noseg:per_axis_pos:display", dict(op="csv", seg=False, multi_pos=True, display_names=True)),
            ("csv:export_seg", dict(op="csv", export_seg=True)), ("save", dict(op="save", select=False)),
            ("save:noseg", dict(op="save", select=False, seg=False, scale="given")),
            ("queries", dict(op="queries", select=False)), ("queries:noseg", dict(op="queries", select=False, seg=False))]
@@ -371,6 +372,11 @@ def C10(tier, seed):
                             f"{nn} node slots, lineage ids arbitrary, the listed features disabled before the edit"))
     en = [(k, 2 if q else 3, g2 if q else g3, {"scale": "sym"}) for k in ("circularity", "perimeter")] + [
         ("iou", 3, g3, {})]
+    # the key is ALREADY active (activated earlier without computing: stored values arbitrary): enabling it with
+    # recomputation must still produce the reference values
+    en += [("area", 2, g2, {"stale_keys": ["area"], "scale": "sym"}),
+           ("circularity", 2, g2, {"all_rp": True, "stale_keys": ["circularity"]}),
+           ("iou", 3, g3, {"iou": True, "stale_keys": ["iou"]})]
     runs += R.enable_runs("C10", tier, en)
     return run_property("C10", tier, runs, explanation=R.EXPL, seed=seed,
                         assumptions=R.SEG_ASSUME + [
